@@ -74,15 +74,26 @@ def run(rep, tier, seed):
     scripts += [sc_ for _, sc_ in sessions.matrix_sessions(rng, tier, lost_free=True, small_only=(tier == "quick"))]
     nresp = len(scripts)
     scripts += respell_sessions(confs)
+    # maximal FAT12 (thorough: and FAT16) volumes filled to the very top by ordinary writes, then removed / truncated / appended to
+    topfill = []
+    for bits in ((12,) if tier == "quick" else (12, 16)):
+        topfill += sessions.top_fill_sessions(bits)
+    scripts += topfill
     nresp = len(scripts) - nresp
     fold_table_tie(rep)
     # quick tier: on FAT32 volumes (65525+ clusters: one evaluation of the invariants costs about a second) the invariants are
     # evaluated at every fourth call and at the end instead of after every call; the thorough tier evaluates after every call
     def is32(sc_lines):
         return any(l.startswith("format ") and l.split()[4] == "32" for l in sc_lines[:4])
+    # the top-fill sessions hold 2 MB (FAT12) / 32 MB (FAT16) files: the invariants alone, at the statistics calls
+    tf = set(id(t) for t in topfill)
+    import concurrent.futures
+    tfi = [i for i in range(len(scripts)) if id(scripts[i]) in tf]
+    pool = concurrent.futures.ThreadPoolExecutor(1)
+    tf_future = pool.submit(lambda: sessions.run_judged([scripts[i] for i in tfi], flags=("wfs",), shards=16))
     if tier == "quick":
         big = [i for i, s_ in enumerate(scripts) if is32(s_)]
-        small = [i for i in range(len(scripts)) if i not in set(big)]
+        small = [i for i in range(len(scripts)) if i not in set(big) and id(scripts[i]) not in tf]
         sparse = []
         for i in big:
             out = []
@@ -100,7 +111,12 @@ def run(rep, tier, seed):
         for i, jd in zip(big, sessions.run_judged(sparse, flags=("wfs", "tree"), shards=16)):
             judged[i] = jd
     else:
-        judged = sessions.run_judged(scripts, flags=("wf", "tree"), shards=16)
+        rest = [i for i in range(len(scripts)) if id(scripts[i]) not in tf]
+        judged = [None] * len(scripts)
+        for i, jd in zip(rest, sessions.run_judged([scripts[i] for i in rest], flags=("wf", "tree"), shards=16)):
+            judged[i] = jd
+    for i, jd in zip(tfi, tf_future.result()):
+        judged[i] = jd
     checked_states = 0
     for jd in judged:
         f = sc.Findings(jd)
